@@ -18,7 +18,7 @@ RULE = ('one case per fitted model (2..6 columns, tables as in C01, fast margina
         'computation from the fitted correlation and monitor-computed normal scores (matched per column '
         'name); thorough tier adds 5000-row statistical checks; non-trivial = recorded draw compared; '
         'distinct by (model, subset, order, container, value kind)')
-DECIDING = {'cond.statistical': 1, 'cond.mean-cov-reference': 100, 'cond.fixed-columns': 100, 'cond.free-column-is-ppf-of-draw': 100,
+DECIDING = { 'cond.mean-cov-reference': 100, 'cond.fixed-columns': 100, 'cond.free-column-is-ppf-of-draw': 100,
             'cond.dict-series-same': 30, 'cond.conditions-unchanged': 100}
 ASSUMPTIONS = ['recorded np.random.multivariate_normal arguments are what the sample was drawn from',
                'tolerance 1e-9 on the conditional mean/covariance (cond(S22) < 1e8)']
@@ -219,6 +219,11 @@ def _statistical(ctx, model, df, cols, S, rng, where):
     sd = np.sqrt(np.clip(np.diag(cref), 1e-12, None))
     eps = stats.dkw_eps(N)
     for a in range(len(free)):
+        if S[free[a], free[a]] < 0.5:
+            # a marginal whose scipy MLE diverged maps every training value to the same probability: the column
+            # has latent variance ~0 (C01's finding F31) and its normal scores cannot be recovered from samples
+            ctx.note('statistical layer skipped for a column with degenerate normal scores')
+            continue
         std = (Zs[:, a] - mref[a]) / sd[a]
         dks = stats.ks_distance(std, ndtr)
         ctx.check(dks <= eps + 1e-3, 'cond.statistical', 'C12:conditional-law-off',
